@@ -498,3 +498,39 @@ func VOffsetPolygonRaw(path Path64, groupDelta float64, jt JoinType, miterLimit 
 	co.offsetPolygon(g, path)
 	return sol[0]
 }
+
+// VFixSelfIntersects builds an output ring (ring[0] is outrec.pts), runs the real fixSelfIntersects
+// (flat output) and returns the remaining ring read from outrec.pts (dropped: outrec.pts is nil) and the
+// rings of the output records it created.
+func VFixSelfIntersects(ring Path64) (main Path64, dropped bool, news Paths64) {
+	c := newClipperBase()
+	o := c.newOutRec()
+	o.pts = vSynthRing(o, ring)
+	c.fixSelfIntersects(o)
+	if o.pts == nil {
+		dropped = true
+	} else {
+		main = vRingPoints(o.pts)
+	}
+	for _, r := range c.outrecList[1:] {
+		news = append(news, vRingPoints(r.pts))
+	}
+	return
+}
+
+// VBuildPaths creates one closed output record per ring (ring[0] is outrec.pts; empty ring: a record
+// without points), runs the real buildPaths and returns the closed solution.
+func VBuildPaths(rings Paths64, preserveCollinear, reverseSolution bool) Paths64 {
+	c := newClipperBase()
+	c.preserveCollinear = preserveCollinear
+	c.reverseSolution = reverseSolution
+	for _, ring := range rings {
+		o := c.newOutRec()
+		if len(ring) > 0 {
+			o.pts = vSynthRing(o, ring)
+		}
+	}
+	sol, open := Paths64{}, Paths64{}
+	c.buildPaths(&sol, &open)
+	return sol
+}
